@@ -94,21 +94,22 @@ func VerifC06NoHiddenState() { verifWriteSet("C06.no-hidden-state") }
 func verifWriteSet(label string) {
 	ep := v.Choice("entry", 4)
 	prof := verifProfilesC10[v.Choice("profile", len(verifProfilesC10))]
+	debug := v.Choice("debug", 2) == 1
 	v.Scope("v")
 	v.TrackWrites(true)
 	verifGuard(func() {
 		switch ep {
 		case 0:
-			CompileProfile(prof, false, nil)
+			CompileProfile(prof, debug, nil)
 		case 1:
-			Validate(prof, "<<data>>", false, nil)
+			Validate(prof, "<<data>>", debug, nil)
 		case 2:
-			compiled, cerr := CompileProfile(prof, false, nil)
+			compiled, cerr := CompileProfile(prof, debug, nil)
 			if cerr == nil {
-				ValidateCompiled(compiled, "<<data>>", false, nil)
+				ValidateCompiled(compiled, "<<data>>", debug, nil)
 			}
 		default:
-			ValidateWithConfiguration(prof, "<<data>>", false, nil, c.TestValidationConfiguration{}, c.DefaultReportConfiguration())
+			ValidateWithConfiguration(prof, "<<data>>", debug, nil, c.TestValidationConfiguration{}, c.DefaultReportConfiguration())
 		}
 	})
 	v.TrackWrites(false)
@@ -116,29 +117,58 @@ func verifWriteSet(label string) {
 	for _, w := range v.WriteLog() {
 		v.Note("write", w)
 	}
+	for _, w := range v.GlobalResets() {
+		v.Note("reset", w)
+	}
 	v.Assert(label, v.GlobalWrites() == 0)
+	// the identifier counter may be added to (every caller still gets its own numbers), never reset
+	v.Assert(label+".reset", len(v.GlobalResets()) == 0)
 }
 
-// VerifC10WriteSetNative: concurrent calls under the race detector.
+// VerifC10WriteSetNative: concurrent calls under the race detector, each compared with the same
+// call made alone (a reset of shared state is no data race, it shows as a different answer).
 func VerifC10WriteSetNative() {
 	prof := verifProfilesC10[v.ReplayInt("profile")]
-	data := `{"@id": "http://x/a", "@type": "http://a.ml/vocabularies/apiContract#EndPoint"}`
-	var wg sync.WaitGroup
-	for g := 0; g < 8; g++ {
-		wg.Add(1)
-		go func() {
-			defer wg.Done()
-			for i := 0; i < 10; i++ {
-				verifGuard(func() {
-					compiled, cerr := CompileProfile(prof, false, nil)
-					if cerr == nil {
-						ValidateCompiled(compiled, data, false, nil)
-					}
-				})
+	debug := false
+	if _, asked := v.ReplayInput("debug"); asked {
+		debug = v.ReplayInt("debug") == 1
+	}
+	// documents that fail the rich profile and the small one
+	data := `{"@graph": [{"@id": "http://x/a", "@type": ["http://a.ml/vocabularies/apiContract#EndPoint", "http://example.org/vocab#C", "http://example.org/vocab#D"], "http://example.org/vocab#items": {"@id": "http://x/b"}}, {"@id": "http://x/b", "http://example.org/vocab#a": "q"}]}`
+	profs := []string{prof, verifRichProfile, verifGoodProfile}
+	run := func(p string) (report string) {
+		verifGuard(func() {
+			compiled, cerr := CompileProfile(p, debug, nil)
+			if cerr == nil {
+				report, _ = ValidateCompiledWithConfiguration(compiled, data, debug, nil, c.TestValidationConfiguration{}, c.DefaultReportConfiguration())
 			}
-		}()
+		})
+		return
+	}
+	alone := make([]string, len(profs))
+	for k, p := range profs {
+		alone[k] = run(p)
+	}
+	var wg sync.WaitGroup
+	var mu sync.Mutex
+	same := true
+	for g := 0; g < 12; g++ {
+		wg.Add(1)
+		go func(g int) {
+			defer wg.Done()
+			for i := 0; i < 25; i++ {
+				k := (g + i) % len(profs)
+				if r := run(profs[k]); r != alone[k] {
+					mu.Lock()
+					same = false
+					mu.Unlock()
+				}
+			}
+		}(g)
 	}
 	wg.Wait()
+	v.Assert("C10.no-unsynchronised-global-write.reset", same)
+	v.Assert("C10.no-unsynchronised-global-write", same)
 }
 
 // VerifC06NoHiddenStateNative: a probe validation that relies on the built-in prefixes gives the
